@@ -10,6 +10,8 @@ for f in sorted(glob.glob('/tmp/mlab_r*.txt'), key=lambda x:int(re.search(r'r(\d
         m=re.match(r'(C\d+/[a-v]) (C\d+) rc=(\d+) ?(.*)',l.strip())
         if m: res[(m.group(1),m.group(2))]=(int(m.group(3)),m.group(4))
 rows=[]
+if not any(os.path.exists(f'{x}/confirm.json') for x in ['/tmp/seedout','/tmp/seedout12']):
+    raise SystemExit('the scratch inputs under /tmp are gone (they are removed at the end of a session): /verif/seeded and DESIGN.md §18 are the record; nothing to do')
 for src in ['/tmp/seedout','/tmp/seedout2','/tmp/seedout3','/tmp/seedout5','/tmp/seedout6','/tmp/seedout7','/tmp/seedout8','/tmp/seedout9','/tmp/seedout10','/tmp/seedout11','/tmp/seedout12']:
     if not os.path.exists(f'{src}/confirm.json'): continue
     conf=json.load(open(f'{src}/confirm.json'))
